@@ -321,6 +321,7 @@ pub fn run_roundtrip(data: &[u8], ctx: &mut Ctx) -> CaseResult {
             vensure!(w == abs && p.pos() == abs.len(), "parsedname-parse:wrong-result", "ParsedName gives {}", hexs_raw(&w));
             let flat: Name<Vec<u8>> = pn.to_name();
             vensure!(flat.as_slice() == &abs[..], "parsedname-to_name:octets-differ", "{}", hexs_raw(flat.as_slice()));
+            parsed_derivations(&pn, &labels)?;
             let shown = pn.to_string();
             match Name::<Vec<u8>>::from_str(&shown) {
                 Ok(n) => vensure!(n.as_slice() == &abs[..], "parsedname:text-roundtrip-differs", "{} -> {shown:?} -> {}", hexs_raw(&abs), hexs_raw(n.as_slice())),
@@ -570,13 +571,96 @@ pub fn run_wire(data: &[u8], ctx: &mut Ctx) -> CaseResult {
     Ok(())
 }
 
+/// Every name DERIVED from a ParsedName (split_first, parent, iter_suffixes)
+/// is validated and compared with the expected suffix of the label list.
+pub fn parsed_derivations(pn: &ParsedName<&[u8]>, expect: &[Vec<u8>]) -> CaseResult {
+    let n = expect.len();
+    // iter_suffixes: the k-th item is the name without its first k labels
+    let mut k = 0usize;
+    for sfx in pn.iter_suffixes() {
+        vensure!(k <= n, "parsedname-iter_suffixes:unbounded", "more than {} suffixes", n + 1);
+        let w = check_iter("parsedname-iter_suffixes", Kind::Abs, &sfx)?;
+        let want = wire_abs(&expect[k..]);
+        vensure!(w == want, "parsedname-iter_suffixes:wrong-labels", "suffix {k} of {} has labels {} want {}", hexs_raw(&wire_abs(expect)), hexs_raw(&w), hexs_raw(&want));
+        let flat: Name<Vec<u8>> = sfx.to_name();
+        check_value("parsedname-iter_suffixes-to_name", Kind::Abs, flat.as_slice())?;
+        vensure!(flat.as_slice() == &want[..], "parsedname-iter_suffixes:to_name-differs", "suffix {k}: to_name {} want {}", hexs_raw(flat.as_slice()), hexs_raw(&want));
+        vensure!(sfx.label_count() == n - k + 1 && sfx.is_root() == (k == n), "parsedname-iter_suffixes:label_count", "suffix {k}: label_count {} is_root {}", sfx.label_count(), sfx.is_root());
+        k += 1;
+    }
+    vensure!(k == n + 1, "parsedname-iter_suffixes:count", "{k} suffixes for {n} labels");
+    // split_first: label by label
+    let mut cur = *pn;
+    for k in 0..=n {
+        let first = cur.split_first().map(|r| r.as_slice().to_vec());
+        match first {
+            Some(fw) => {
+                vensure!(k < n, "parsedname-split_first:some-on-root", "split_first returned {} from the root name", hexs_raw(&fw));
+                check_value("parsedname-split_first", Kind::Rel, &fw)?;
+                let want = wire_rel(&expect[k..k + 1]);
+                vensure!(fw == want, "parsedname-split_first:wrong-label", "split_first #{k} of {} gives {} want {}", hexs_raw(&wire_abs(expect)), hexs_raw(&fw), hexs_raw(&want));
+                let w = check_iter("parsedname-split_first-rest", Kind::Abs, &cur)?;
+                let want = wire_abs(&expect[k + 1..]);
+                vensure!(w == want, "parsedname-split_first:wrong-rest", "after split_first #{k} the name has labels {} want {}", hexs_raw(&w), hexs_raw(&want));
+                let flat: Name<Vec<u8>> = cur.to_name();
+                check_value("parsedname-split_first-rest-to_name", Kind::Abs, flat.as_slice())?;
+                vensure!(flat.as_slice() == &want[..], "parsedname-split_first:rest-to_name-differs", "to_name {} want {}", hexs_raw(flat.as_slice()), hexs_raw(&want));
+                let mut buf = vec![];
+                cur.compose(&mut buf).unwrap();
+                vensure!(buf == want, "parsedname-split_first:rest-compose-differs", "compose {} want {}", hexs_raw(&buf), hexs_raw(&want));
+            }
+            None => {
+                vensure!(k == n, "parsedname-split_first:none-on-non-root", "split_first #{k} returned None with {} labels left", n - k);
+            }
+        }
+    }
+    // parent: the same walk
+    let mut cur = *pn;
+    for k in 0..=n {
+        let went = cur.parent();
+        vensure!(went == (k < n), "parsedname-parent:wrong-return", "parent #{k} returned {went} with {} labels left", n - k);
+        if went {
+            let w = check_iter("parsedname-parent", Kind::Abs, &cur)?;
+            let want = wire_abs(&expect[k + 1..]);
+            vensure!(w == want, "parsedname-parent:wrong-labels", "after parent #{k} the name has labels {} want {}", hexs_raw(&w), hexs_raw(&want));
+            let flat: Name<Vec<u8>> = cur.to_name();
+            check_value("parsedname-parent-to_name", Kind::Abs, flat.as_slice())?;
+            vensure!(flat.as_slice() == &want[..], "parsedname-parent:to_name-differs", "to_name {} want {}", hexs_raw(flat.as_slice()), hexs_raw(&want));
+            vensure!(cur == flat, "parsedname-parent:not-equal-to-flat-copy", "parent #{k}");
+        }
+    }
+    Ok(())
+}
+
 /// Compressed names: segments chained by backward pointers.
 pub fn run_parsed(data: &[u8], ctx: &mut Ctx) -> CaseResult {
     let mut u = Unstructured::new(data);
-    let mut msg: Vec<u8> = vec![0; pick(&mut u, 14)];
     // segment 0: a complete name
     let total0 = match pick(&mut u, 6) { 0 => 255, 1 => 200 + pick(&mut u, 56), 2 => 1, _ => 2 + pick(&mut u, 40) };
     let w0 = { let mut w = rel_of_len(&mut u, if total0 == 2 { 2 } else { total0 - 1 }); w.push(0); w };
+    // where it sits: pointer targets are spread over the whole 14-bit range
+    // (a label start of segment 0 is put right at / next to a boundary)
+    let st0 = label_starts(&w0);
+    let anchor = st0[pick(&mut u, st0.len())];
+    let (base, place): (usize, &'static str) = match pick(&mut u, 12) {
+        0 | 1 | 2 => (pick(&mut u, 14), "small"),
+        3 => ((0x3FF + pick(&mut u, 3)).saturating_sub(anchor), "target-1023..1025"),
+        4 => ((0x0FF + pick(&mut u, 3)).saturating_sub(anchor), "target-255..257"),
+        5 => ((0x1FFE + pick(&mut u, 4)).saturating_sub(anchor), "target-0x1ffe..0x2001"),
+        6 | 7 => ((0x3FFF - pick(&mut u, 3)).saturating_sub(anchor), "target-0x3ffd..0x3fff"),
+        8 => (0x4000 - w0.len().min(0x4000) + pick(&mut u, 3), "segment-ends-at-0x4000"),
+        9 => ((0x7FF + pick(&mut u, 3)).saturating_sub(anchor), "target-2047..2049"),
+        _ => (pick(&mut u, 0x3F00), "random"),
+    };
+    ctx.class(format!("parsed:placement:{place}"));
+    // Filler is never read by a correct parser. It is made of one-octet
+    // labels (or zeros) rather than pointer-like octets, so that a parser
+    // that lands in it by mistake yields wrong labels or an error instead
+    // of spinning on a pointer to itself (a hang would still be reported by
+    // the engine's watchdog, but only after its time limits).
+    let zero_fill = chance(&mut u, 40);
+    let filler = move |n: usize, at: usize| -> Vec<u8> { (0..n).map(|i| if zero_fill { 0 } else if (at + i) % 2 == 0 { 1 } else { b'z' }).collect() };
+    let mut msg: Vec<u8> = filler(base, 0);
     let mut seg_start = msg.len();
     let mut expect: Vec<Vec<u8>> = validate(Kind::Abs, &w0).unwrap();
     let mut starts: Vec<(usize, usize)> = label_starts(&w0).into_iter().enumerate().map(|(i, o)| (seg_start + o, i)).collect();
@@ -584,10 +668,16 @@ pub fn run_parsed(data: &[u8], ctx: &mut Ctx) -> CaseResult {
     msg.extend_from_slice(&w0);
     let nseg = pick(&mut u, 4);
     let mut ptrs = 0;
+    let mut max_target = 0usize;
     for _ in 0..nseg {
-        msg.extend_from_slice(&vec![0xEE; pick(&mut u, 6)]);
-        let (target, skip) = starts[pick(&mut u, starts.len())];
-        if target >= 0x3FFF { break; }
+        let gap = match pick(&mut u, 8) { 0 => 1000 + pick(&mut u, 60), 1 => pick(&mut u, 0x2000), _ => pick(&mut u, 6) };
+        let fl = filler(gap, msg.len());
+        msg.extend_from_slice(&fl);
+        // only offsets that fit into the 14 pointer bits can be targets
+        let cands: Vec<(usize, usize)> = starts.iter().copied().filter(|(o, _)| *o <= 0x3FFF).collect();
+        if cands.is_empty() { break; }
+        let (target, skip) = if chance(&mut u, 60) { *cands.last().unwrap() } else { cands[pick(&mut u, cands.len())] };
+        max_target = max_target.max(target);
         let tail: Vec<Vec<u8>> = expect[skip.min(expect.len())..].to_vec();
         let tail_len = wire_abs(&tail).len();
         let room = 255usize.saturating_sub(tail_len);
@@ -612,6 +702,10 @@ pub fn run_parsed(data: &[u8], ctx: &mut Ctx) -> CaseResult {
     let valid = want.len() <= 255;
     if (253..=257).contains(&want.len()) { ctx.nontrivial(&msg); ctx.class(format!("parsed:len-{}", want.len())); }
     ctx.class(format!("parsed:pointers-{ptrs}"));
+    if ptrs > 0 {
+        ctx.class(match max_target { 0..=0xFF => "parsed:max-target<256", 0x100..=0x3FF => "parsed:max-target-256..1023", 0x400..=0x1FFF => "parsed:max-target-1024..0x1fff", 0x2000..=0x3FFC => "parsed:max-target-0x2000..0x3ffc", _ => "parsed:max-target-0x3ffd..0x3fff" });
+        if max_target >= 0x400 { ctx.nontrivial(&(&msg[msg.len().saturating_sub(600)..], max_target)); }
+    }
     ctx.sample(|| format!("{ptrs} pointers, name of {} octets at {at} in a {}-octet buffer", want.len(), msg.len()));
     let mut p = Parser::from_ref(&msg[..]);
     p.seek(at).unwrap();
@@ -635,7 +729,9 @@ pub fn run_parsed(data: &[u8], ctx: &mut Ctx) -> CaseResult {
             let back = ParsedName::parse(&mut p2);
             vensure!(matches!(&back, Ok(b) if *b == pn), "parsedname:compose-parse-roundtrip", "re-parse of the composed name differs or fails");
             vensure!(Name::from_octets(buf.clone()).is_ok(), "name-from_octets:rejected-valid-name", "composed ParsedName refused");
+            parsed_derivations(&pn, &expect)?;
             ctx.class("parsed:ok");
+            if ptrs > 0 && max_target >= 0x400 { ctx.class("parsed:ok-with-target>=1024"); }
         }
         Err(_) => {
             ctx.class(if valid { "parsed:err-on-valid" } else { "parsed:rejected-long" });
